@@ -320,18 +320,19 @@ def runHist (case impl : String) : String × String :=
     query; the upstream would answer response `r`), `s,<k>,<r>,<kind>` (`cacheCtl.Store`), `g,<k>` (`cacheCtl.Get`),
     `w,<n>` (n writes of fresh long-lived keys, then the backend drains its task buffer), `v` (all keys written by
     `w` are looked up), `z,<ms>` (time passes), `r,<k>,<stores>,<getters>` (lookups concurrent with replacing stores).
-    kinds: `p` NOERROR ttl 3600 (Set) · `t` NOERROR ttl 1 (Set) · `m` NOERROR ttl 2^32−1 (Set; lifetime = the
+    kinds: `p` NOERROR ttl 3600 (Set) · `t` NOERROR ttl 1 (Set) · `q` NOERROR ttl 5 (Set) · `m` NOERROR ttl 2^32−1 (Set; lifetime = the
     configured maximum, ten years at most) · `n` NXDOMAIN, 30 s (SetIfAbsent) · `f` REFUSED, 5 s (SetIfAbsent)
   out : `x` | `s` | `c:<r>` | `u:<r>` | `hit:<r>` | `miss` | `w` | `v:<missed>` | `z` | `up:<n>` | `bad`
   Time is in milliseconds and advances only by `z`.
 -/
 
-inductive Kind where | p | t | m | n | f
+inductive Kind where | p | t | m | n | f | q
   deriving DecidableEq, Repr
 
 def Kind.ttl (cfgMax : Nat) : Kind → Nat
   | .p => 1000 * clampTtl cfgMax 3600
   | .t => 1000 * clampTtl cfgMax 1
+  | .q => 1000 * clampTtl cfgMax 5
   | .m => 1000 * clampTtl cfgMax (2 ^ 32 - 1)
   | .n => 30000
   | .f => 5000
@@ -453,7 +454,7 @@ def convSpec (cfgMax : Nat) (ops : List COp) (outs : List COut) : Bool :=
   outs == convIdeal cfgMax ⟨Ideal.empty, [], 0⟩ ops
 
 def kindOfStr : String → Option Kind
-  | "p" => some .p | "t" => some .t | "m" => some .m | "n" => some .n | "f" => some .f | _ => none
+  | "p" => some .p | "t" => some .t | "m" => some .m | "n" => some .n | "f" => some .f | "q" => some .q | _ => none
 
 def copOfStr (s : String) : Option COp :=
   match s.splitOn "," with
